@@ -18,10 +18,22 @@ CLAIMED = {
  "C04": ("proptest-generated boundary shapes, extreme magnitudes, limits and ill-formed dimensions under catch_unwind",
          "Exploration: 150k (quick) / 4M (thorough) boundary-shape problems (m=0, no/empty/singleton cones, zero A/P, duplicates, 1e-324..1e300 magnitudes, infeasible/unbounded) x max_iter/time_limit grids must return a terminal status without panicking, within max_iter, with 0 iterations at time_limit=0; ill-formed dimensions must hit the documented construction panic.",
          SOLVE_NOTE + " Hangs are bounded by max_iter; the watchdog yields exit 2, never a violation.", "DESIGN.md §4 C04"),
+ "C06": ("proptest-generated well-posed family G under default settings; distributional gate (binomial margin) on the Solved fraction and a frozen p95 iteration envelope",
+         "Exploration (statistical): 36k (quick) / 480k (thorough) planted strictly-feasible, full-column-rank instances over all cone mixtures are solved with default settings; alarm iff the Solved fraction is below 99.5% by more than 4.5 binomial standard deviations or p95(iterations) exceeds the frozen envelope of 27 (baseline on the repaired tree: 99.72% Solved, p95=18). Evidence lists per-status counts, percentiles and the worst cone classes; the replay file holds the non-solved instances.",
+         SOLVE_NOTE + " The gate cannot see failures confined to <0.3% of the family.", "DESIGN.md §4 C06"),
+ "C09": ("proptest-generated infinite-bound placements and set_infinity histories; bitwise differential against hand-reduced / capped problems",
+         "Exploration: planted problems with B, B(1+1e-3), 1e10 B, f64::MAX, +inf or B(1-1e-6) on random rows of nonnegative, singleton SOC/PSD and other cones, presolve on/off, module bound in {1e5,1e10,1e20,1e25} set through histories and changed again after construction; checks the dropped set, z=0/s=B, lengths, internal size, and bitwise equality with the problem reduced by hand and with capped entries replaced by B.",
+         SOLVE_NOTE + " Single-threaded because the check owns the module-level infinity value (restored on exit).", "DESIGN.md §4 C09"),
+ "C10": ("proptest-generated badly scaled raw data; entrywise oracle on solver.data after construction",
+         "Exploration: 120k (quick) / 3M (thorough) raw data sets (magnitudes up to 1e+-15, zero rows/columns, empty/missing-diagonal P, all cones, capped b) x equilibration settings; internal data must equal c*D*P*D, E*A*D, c*D*q, E*min(b,B) entrywise, factors bounded, reciprocals exact, zero rows/columns unscaled, E constant inside non-scalar cones, and be bit-identical when equilibration is off.",
+         "Trusted: the entrywise formulas in harness/src/props/c10.rs with relative slack 64(iters+2)eps; settings satisfy min<=1<=max.", "DESIGN.md §4 C10"),
  "C12": ("exhaustive small-scope enumeration (patterns x orderings, all invalid permutation vectors n<=4) + proptest-generated matrices and update/refactor histories against a dense LDL' backward-error oracle",
          "Exploration: every triu pattern for n<=4 (5 in thorough) under every ordering, every non-permutation vector, and >200k generated matrices/histories are factored; each Ok result must satisfy the no-pivot backward-error bound, the stepwise pivot/regularisation rule, exact symbolic fill, inertia count, solve residual and refactor==fresh bitwise; each reject must be the documented error.",
          "Trusted: dense reference recurrences in harness/src/props/c12.rs; the standard gamma_n|L||D||L'| bound with constant 10(n+2); generic matrices with factor growth >1e12 are discarded (counted), strictly diagonally dominant ones never are.",
          "DESIGN.md §4 C12"),
+ "C14": ("proptest-generated interior points of exp/pow/genpow cones; dual barriers re-implemented and differentiated exactly with nested dual numbers",
+         "Exploration: 80k (quick) / 3M (thorough) (cone, s, z, directions, mu) tuples over exponents incl. within 1e-3 of 0/1, dim1<=5, dim2<=4, magnitudes 1e+-6, boundary distance 1e-6..2; membership predicates, stored gradient/Hessian (also after reuse of the cone object), mu*H under dual scaling, conjugacy of the primal gradient (measured on g against an exact Newton solve), primal barrier identity, third-order correction, secant properties of the primal-dual scaling, and centrality of the starting point are compared with exact derivatives.",
+         "Trusted: the barrier definitions and forward-mode dual numbers in harness/src/dual.rs; tolerance max(1e-9, 1e4 eps/delta); third-order term judged only for delta>=1e-3.", "DESIGN.md §4 C14"),
  "C16": ("exhaustive small-scope enumeration + proptest-generated cases against a dense reference model",
          "Exploration: every sparsity pattern up to 3x3/4x3, every short triplet list and every small raw encoding is enumerated, plus tens of thousands of generated larger cases; each is compared with == against a dense model. Failing cases shrink to a replay file. Does not prove absence beyond the enumerated scope.",
          "Trusted: the dense model / is_canonical predicate in harness/src/props/c16.rs; exact arithmetic on small integers.",
